@@ -19,8 +19,10 @@ cd /verif
 IFS=',' read -ra IDS <<< "$ID"
 for id in "${IDS[@]}"; do
   start=$(date +%s)
+  cp evidence/$id.json /var/tmp/ev.$$.$id.json 2>/dev/null
   ./check $id --tier $TIER > /var/tmp/mut.$$.log 2>&1; rc=$?
   end=$(date +%s)
+  mv /var/tmp/ev.$$.$id.json evidence/$id.json 2>/dev/null
   echo "MUTANT $id rc=$rc t=$((end-start))s : $(grep -m1 'violation detail' /var/tmp/mut.$$.log | cut -c1-300)"
   [ $rc -eq 2 ] && tail -5 /var/tmp/mut.$$.log
 done
